@@ -655,14 +655,53 @@ impl serde::Serialize for SymF {
         s.serialize_u32(self.0)
     }
 }
+/// When set, numbers met while deserialising a `SymF` are *values* (turned into constants) instead of
+/// term handles: used to turn a model fitted with `f64` into the same model over the symbolic scalar
+/// (`to_symbolic`), for predictors whose `fit` is tied to primitive floats but whose `predict` is generic.
+pub static DESERIALIZE_VALUES: std::sync::atomic::AtomicBool = std::sync::atomic::AtomicBool::new(false);
+
 impl<'de> serde::Deserialize<'de> for SymF {
     fn deserialize<D: serde::Deserializer<'de>>(d: D) -> Result<SymF, D::Error> {
-        let h = <u32 as serde::Deserialize>::deserialize(d)?;
-        let ok = with(|a| (h as usize) < a.terms.len());
-        if !ok {
-            return Err(<D::Error as serde::de::Error>::custom("dangling SymF handle"));
+        struct V;
+        impl<'de> serde::de::Visitor<'de> for V {
+            type Value = SymF;
+            fn expecting(&self, f: &mut fmt::Formatter) -> fmt::Result {
+                f.write_str("a term handle (or a number in value mode)")
+            }
+            fn visit_u64<E: serde::de::Error>(self, h: u64) -> Result<SymF, E> {
+                if DESERIALIZE_VALUES.load(std::sync::atomic::Ordering::Relaxed) {
+                    return Ok(cst(h as f64));
+                }
+                let ok = with(|a| (h as usize) < a.terms.len());
+                if !ok {
+                    return Err(E::custom("dangling SymF handle"));
+                }
+                Ok(SymF(h as u32))
+            }
+            fn visit_u32<E: serde::de::Error>(self, h: u32) -> Result<SymF, E> {
+                self.visit_u64(h as u64)
+            }
+            fn visit_i64<E: serde::de::Error>(self, h: i64) -> Result<SymF, E> {
+                if DESERIALIZE_VALUES.load(std::sync::atomic::Ordering::Relaxed) {
+                    return Ok(cst(h as f64));
+                }
+                if h < 0 {
+                    return Err(E::custom("negative SymF handle"));
+                }
+                self.visit_u64(h as u64)
+            }
+            fn visit_f64<E: serde::de::Error>(self, v: f64) -> Result<SymF, E> {
+                if DESERIALIZE_VALUES.load(std::sync::atomic::Ordering::Relaxed) {
+                    return Ok(cst(v));
+                }
+                Err(E::custom("a float where a SymF handle was expected"))
+            }
         }
-        Ok(SymF(h))
+        if DESERIALIZE_VALUES.load(std::sync::atomic::Ordering::Relaxed) {
+            d.deserialize_any(V)
+        } else {
+            d.deserialize_u32(V)
+        }
     }
 }
 
